@@ -743,7 +743,7 @@ def _cmp_unit(m, f):
     if f == 'KeyError' or f.startswith('err:'):
         return 'model %s, implementation %s' % (m[:3], f)
     fv, d = U.parse_base_format(f)
-    if not U.close(U.scale_value(m[1]), fv) or _root_dict(m[2]) != d:
+    if not U.close(U.scale_value(m[1]), fv) or not U.dims_close(_root_dict(m[2]), d):
         return 'model %s %s, implementation %s' % (m[1], m[2], f)
     return None
 
@@ -941,7 +941,7 @@ def oracle(case, obs):
                     continue
                 want = U.sem_of(sem, [(s, name, '1')])
                 fv, d = U.parse_base_format(f)
-                if not U.close(fv, want.scale) or d != _fmt_dims(want.dims):
+                if not U.close(fv, want.scale) or not U.dims_close(d, _fmt_dims(want.dims)):
                     fails.append({'key': 'leak:units', 'detail': 'after op %d: store %d shows %s as %s, its own '
                                   'definition means %s %s' % (idx, s, name, f, mpmath.nstr(want.scale, 15),
                                                              _fmt_dims(want.dims))})
